@@ -620,7 +620,10 @@ func (m *Manager) acquireTasks(envId uid.ID, taskDescriptors Descriptors) (err e
 		}
 	}
 
-	m.deployMu.Unlock()
+	if len(tasksToRun) > 0 {
+		// only taken when something had to be launched (every descriptor may have been satisfied by reuse)
+		m.deployMu.Unlock()
+	}
 
 	if !deploymentSuccess {
 		var deployedTaskIds []string
